@@ -9,15 +9,16 @@ SPEC = {
     'harness': 'c03',
     'args': {
         'quick': ['-unit', 900, '-api', 120, '-offsets', 40],
-        'thorough': ['-unit', 9000, '-api', 1500, '-offsets', 96],
+        'thorough': ['-unit', 9000, '-api', 1500, '-offsets', 96, '-resetunit', 2500, '-reuse', 30],
     },
-    'search_args': ['-unit', 4000, '-api', 600, '-offsets', 64],
+    'search_args': ['-unit', 4000, '-api', 600, '-offsets', 64, '-resetunit', 1000, '-reuse', 12],
     'assumptions': [
         'the wrapped io.Reader returns 0 <= n <= len(p); the scripted readers of the harness obey it; "abides" = fewer than maxConsecutiveEmptyReads (0,nil) reads in a row, terminal io.EOF',
         'operation lists respect the decReaderI protocol the decoders follow (Model.pre_ok): startRecording/jsonReadNum after a byte was read, jsonReadNum when that byte is a number character, stopRecording while recording, unbuffered skip while recording, no NUL before the closing quote for jsonReadUntilDblQuote',
         'request sizes below 2^63 (Go ints); model uses unbounded nat',
         'model of ioDecReader/bytesDecReader is hand written; tied by running it (vm_compute) on the operation lists, data and reader scripts the real readers ran (outputs, tokens, numread, bytes drawn, Read calls, sum of request sizes, error class, initial capacity)',
         'the decoders read bytes only through decReaderI (api stream checks the consequence on real Decoders of all five formats)',
+        'resetIO on a used reader (Decoder.Reset) is modelled as: every field forgotten, only the capacity of the kept buffer survives (ModelR.resetIO; free list not modelled: with an unchanged ReaderBufferSize the kept buffer is always large enough); tied by the resetunit stream (real ioDecReader reset between operation lists, the capacity before the reset is an input of the case, the capacity after it is checked) and, above the reader, by the reuse stream (real Decoders through Decoder.Reset)',
     ],
     'trusted_extra': ['modelled, not verified: ioDecReader/bytesDecReader (reader.go), bytesFreeList capacities for a fresh free list, isNumberChar/isWhitespaceChar tables; the decoders above the reader are exercised only through the api stream oracle'],
 }
@@ -28,6 +29,6 @@ def main(chk):
 MANIFEST = {
     'category': 'proof',
     'technique': 'Coq proof (simulation of an executable model of ioDecReader by the specification reader over the delivered bytes, invariants over operation lists) + vm_compute correspondence of the model against the real ioDecReader/bytesDecReader + direct oracle on real Decoders (io vs []byte, truncation at every offset, chunk boundary at every offset)',
-    'text': 'Theorems C03_refines (io trace == specification trace on the delivered bytes: outputs, tokens, numread, success/failure; all ReaderBufferSize, MaxInitLen, ByteReader or not, all data, all contract-abiding scripts, all protocol-respecting operation lists over all decReaderI operations incl. recording and the json scanners), C03_truncated (reader ends early with EOF or an error => error), C03_truncated_unbuffered_any_script, C03_no_overread (unbuffered: bytes drawn == numread after every operation), C03_total (no out-of-fuel) hold without bounds; the model is tied to reader.go by running both on the same operation lists, data and scripts (unit stream, vm_compute, incl. Read call counts and request sizes) and the API consequence (value, error-ness, NumBytesRead equal to NewDecoderBytes; chunk boundary and truncation at every offset; iotest readers; deadline reader; no over-read) is checked on real Decoders of all five formats.',
+    'text': 'Theorems C03_refines (io trace == specification trace on the delivered bytes: outputs, tokens, numread, success/failure; all ReaderBufferSize, MaxInitLen, ByteReader or not, all data, all contract-abiding scripts, all protocol-respecting operation lists over all decReaderI operations incl. recording and the json scanners), C03_truncated (reader ends early with EOF or an error => error), C03_truncated_unbuffered_any_script, C03_no_overread (unbuffered: bytes drawn == numread after every operation), C03_total (no out-of-fuel), C03_reset_refines / C03_reset_truncated / C03_session_refines (a reader REUSED through resetIO, from every previous state whatsoever -- previous Reader drained to io.EOF, sticky error, recording on, unread bytes, grown buffer -- and after any number of earlier segments, refines the specification reader over the NEW bytes alone) hold without bounds; the model is tied to reader.go by running both on the same operation lists, data and scripts (unit stream, vm_compute, incl. Read call counts and request sizes) and the API consequence (value, error-ness, NumBytesRead equal to NewDecoderBytes; chunk boundary and truncation at every offset; iotest readers; deadline reader; no over-read) is checked on real Decoders of all five formats, including Decoders reused through Reset(newReader) after 13 kinds of history of the previous Reader.',
     'note': 'Trusted: Coq kernel, the hand-written models of ioDecReader/bytesDecReader and of the scripted reader (correspondence-checked, not verified), Gen/Consts.v translator (maxConsecutiveEmptyReads), Go toolchain. The decoder layers above the reader are covered only by the API oracle.',
 }
